@@ -174,6 +174,11 @@ func (m *machine) decide(cond *Term) bool {
 		return d.B
 	}
 	m.di++
+	if m.eng.siteStats != nil {
+		m.eng.siteMu.Lock()
+		m.eng.siteStats["decide "+m.where()+" :: "+truncStr(cond.String(), 120)]++
+		m.eng.siteMu.Unlock()
+	}
 	rT := m.solver.Check(m.pc, cond)
 	var take bool
 	switch rT {
@@ -835,4 +840,11 @@ func valStr(v value) string {
 		return "iface(" + typeName(v.t) + ")"
 	}
 	return fmt.Sprintf("%T", v)
+}
+
+func truncStr(s string, n int) string {
+	if len(s) > n {
+		return s[:n] + "…"
+	}
+	return s
 }
